@@ -75,7 +75,9 @@ def check_lib(src, workdir, name="host"):
     h = host()
     out = os.path.join(workdir, f"lib{name}.rmeta")
     return rustc(["--edition", "2024", "--crate-type", "lib", "--crate-name", name, "--emit=metadata", "-o", out,
-                  "--error-format=json", "--cap-lints", "allow", src] + h["externs"], workdir)
+                  "--error-format=json", "-A", "warnings", src] + h["externs"], workdir)
+    # (-A warnings, not --cap-lints allow: lints that are deny-by-default, e.g. overflowing_literals, stop a user's build as
+    # well and must stop this one)
 
 
 def build_bin(src, workdir, name="drv"):
